@@ -57,7 +57,7 @@ def gen_tree(rng):
 NAMES = [b'f1', b'f2', b'fs', b'fg', b'd1', b'd2', b'd3', b'g', b'dd', b'hl', b'l1', b'l2', b'ff', b'n1', b'n2', b'n3', b'n4', b'x' * 255, b'y' * 256, b'', b'.', b'..', b'a/b']
 XNAMES = [b'user.a', b'user.b', b'user.c', b'user.', b'bad', b'', b'user.' + b'z' * 251]
 
-def gen_history(rng, n_ops, k=0):
+def gen_history(rng, n_ops, k=0, wb=False):
     ops = []; ni = 1; nh = 0
     hflags = []       # the flags each handle slot was opened with
     def nm(): return rng.choice(NAMES[:17]) if rng.random() < 0.9 else rng.choice(NAMES)
@@ -132,7 +132,7 @@ def gen_history(rng, n_ops, k=0):
         elif r < 0.71:
             h = hslot(); i = islot()
             fl = hflags[h] if not isinstance(h, tuple) else 0
-            if rng.random() < 0.15: fl ^= O_APPEND
+            if rng.random() < 0.15 and not wb: fl ^= O_APPEND
             if rng.random() < 0.5: ops.append({'op': 'read', 'i': i, 'h': h, 'size': rng.choice([0, 4, 64]), 'off': rng.choice([0, 0, 3, 40]), 'flags': fl})
             else: ops.append({'op': 'write', 'i': i, 'h': h, 'off': rng.choice([0, 2, 15]), 'data': rng.choice([b'', b'W', b'WXYZ']), 'flags': fl, 'fuse_flags': rng.choice([0, 4])})
         elif r < 0.76:
@@ -145,7 +145,7 @@ def gen_history(rng, n_ops, k=0):
                     hidx = sum(1 for o2 in ops[:j] if o2['op'] in ('open', 'opendir', 'create'))
                     iref = o['i'] if o['op'] == 'open' else 1 + sum(1 for o2 in ops[:j] if o2['op'] in ('lookup', 'mkdir', 'mknod', 'create', 'symlink', 'link'))
                     fl = hflags[hidx]
-                    if rng.random() < 0.2: fl ^= O_APPEND
+                    if rng.random() < 0.2 and not wb: fl ^= O_APPEND
                     c = rng.random()
                     if c < 0.35: ops.append({'op': 'write', 'i': iref, 'h': hidx, 'off': rng.choice([0, 2, 15]), 'data': rng.choice([b'W', b'WXYZ', b'']), 'flags': fl, 'fuse_flags': rng.choice([0, 4])})
                     elif c < 0.6: ops.append({'op': 'read', 'i': iref, 'h': hidx, 'size': 64, 'off': rng.choice([0, 3]), 'flags': fl})
@@ -170,6 +170,27 @@ def gen_history(rng, n_ops, k=0):
         elif r < 0.985: ops.append({'op': 'statfs', 'i': islot()})
         elif r < 0.99: ops.append({'op': 'flush', 'i': islot(), 'h': hslot()})
         else: ops.append({'op': 'statfs', 'i': islot()})
+    # the per-request flags word of READ/WRITE (last, because under writeback it runs into the known finding):
+    # {handle opened with O_APPEND, without} x request flags {as opened, O_APPEND toggled, toggled again, plus O_NONBLOCK /
+    # O_DIRECT toggles} x offsets {0, middle, EOF, beyond EOF} x two consecutive requests with flipping flags (the recorded
+    # flags matter only from the second on) and a READ in between (it updates the recorded flags too); with no_open the
+    # same requests run on per-request descriptors
+    O_DIRECT = 0o40000
+    T = [0, O_APPEND, O_APPEND | O_NONBLOCK, O_NONBLOCK, O_APPEND | O_DIRECT, O_DIRECT]
+    offs = [0, 3, 10, 40]
+    ops.append({'op': 'create', 'p': 0, 'name': b'wfl', 'mode': 0o666, 'umask': 0, 'flags': O_RDWR, 'fuse_flags': 0, 'uid': 0, 'gid': 0})
+    ci = ni; ch = nh; ni += 1; nh += 1; hflags.append(O_RDWR)
+    ops.append({'op': 'write', 'i': ci, 'h': ch, 'off': 0, 'data': b'0123456789', 'flags': O_RDWR, 'fuse_flags': 0})
+    for oa in (0, O_APPEND):
+        base = O_RDWR | oa
+        ops.append({'op': 'open', 'i': ci, 'flags': base, 'fuse_flags': 0}); h = nh; nh += 1; hflags.append(base)
+        seq = [base, base ^ O_APPEND, base ^ O_APPEND, base ^ T[(k + 2) % len(T)], base ^ T[(k + 4) % len(T)], base]
+        for j, fl in enumerate(seq):
+            ops.append({'op': 'write', 'i': ci, 'h': h, 'off': offs[(k + j) % 4], 'data': bytes([65 + j + (8 if oa else 0)]) * 2, 'flags': fl, 'fuse_flags': 0})
+            ops.append({'op': 'getattr', 'i': ci, 'h': None})
+            if j == 1: ops.append({'op': 'read', 'i': ci, 'h': h, 'size': 4, 'off': 1, 'flags': base if k % 2 else fl})
+    ops.append({'op': 'open', 'i': ci, 'flags': O_NONBLOCK, 'fuse_flags': 0}); nh += 1; hflags.append(O_NONBLOCK)
+    ops.append({'op': 'read', 'i': ci, 'h': nh - 1, 'size': 128, 'off': 0, 'flags': O_NONBLOCK})
     return ops
 
 CMP_KEYS = ('errno', 'mode', 'nlink', 'uid', 'gid', 'size', 'rdev', 'data', 'n', 'handle')
@@ -237,7 +258,7 @@ def run_check(tier, seed):
         for k in range(n_hist):
             hrng = random.Random(rng.getrandbits(64))
             tree, R = gen_tree(hrng)
-            hist.append({'k': k, 'tree': tree, 'R': R, 'ops': gen_history(hrng, 60, k), 'cfg': cfgs[k % len(cfgs)],
+            hist.append({'k': k, 'tree': tree, 'R': R, 'ops': gen_history(hrng, 60, k, bool(effective_cfg(cfgs[k % len(cfgs)]).get('writeback'))), 'cfg': cfgs[k % len(cfgs)],
                          'export': os.path.join(base, 'h%d' % k, 'export'), 'shadow': os.path.join(base, 'h%d' % k, 'shadow')})
         runs = {}
         for mode, key in (('pt', 'export'), ('shadow', 'shadow')):
@@ -289,7 +310,8 @@ def run_check(tier, seed):
                         fld = sorted(k for k in set(ca) | set(cb) if ca.get(k) != cb.get(k)) or ['tree']
                         findings.append({'what': 'request %d (%s) differs from the same calls made directly: passthrough %s | direct %s%s' % (j, op_line(o), ra['raw'], rb['raw'], '' if ra['tree'] == rb['tree'] else ' | exported tree differs'),
                                          'input': rin, 'sig': {'kind': 'reply', 'op': o['op'], 'field': fld[0], 'pt_errno': errno_of(ra['r']), 'direct_errno': errno_of(rb['r']),
-                                                               'ifh': bool(hh['cfg'].get('inode_file_handles')), 'nonroot': o.get('uid', 0) != 0}})
+                                                               'ifh': bool(hh['cfg'].get('inode_file_handles')), 'nonroot': o.get('uid', 0) != 0,
+                                                               'writeback': bool(effective_cfg(hh['cfg']).get('writeback')), 'req_append': bool(o['op'] in ('read', 'write') and o['flags'] & O_APPEND)}})
                 if not diverged:
                     wa, wb = walk_tree(hh['export']), walk_tree(hh['shadow'])
                     if wa != wb:
